@@ -23,6 +23,8 @@ var specs = []Spec{
 	}},
 	{ID: "C05", Level: "exploration", MinDistinct: 50, Engines: []Engine{
 		{Name: "seq", Pkg: "./mon/c05", Procs: 1},
+		{Name: "par", Pkg: "./mon/c05", Race: true, Env: []string{"VERIF_MODE=par"}, DeathSig: "C05/par:process-died"},
+		{Name: "coop", Pkg: "./mon/c05", Env: []string{"VERIF_MODE=coop"}, Instr: []string{"core/hotspot/traffic_shaping.go", "core/hotspot/cache/concurrent_lru.go+sync"}},
 	}},
 	{ID: "C06", Level: "exploration", MinDistinct: 50, Engines: []Engine{
 		{Name: "seq", Pkg: "./mon/c06", Procs: 1},
